@@ -148,7 +148,9 @@ def build():
                      'FieldSignature.field_attrs[self]', 'FieldSignature.related_model[self]'],
            ensures=['self.field_name == field_name', 'self.field_type == field_type',
                     'self.field_attrs == field_attrs'],
-           note='plain constructor storing its arguments (related_model value abstracted to a string elsewhere)')
+           stores=['field_attrs'],
+           note='plain constructor storing its arguments, the attribute dict by reference (related_model value abstracted '
+                'to a string elsewhere)')
     w.stub('ModelSignature.add_field_sig', params={'self': K.Ref('ModelSignature'), 'field_sig': K.Ref('FieldSignature')},
            modifies=['ModelSignature._field_sigs[self]'],
            ensures=['field_sig.field_name in self._field_sigs',
@@ -169,7 +171,7 @@ def build():
     NEEDS_INITIAL_ADD = ("not is_m2m(self.field_type) and not truthy(self.field_attrs.get('null')) "
                          "and self.initial is None")
     w.contract(
-        'AddField.simulate', module=ADDF, serves=['C12'],
+        'AddField.simulate', module=ADDF, serves=['C12', 'C14', 'C03'],
         params={'self': K.Ref('AddField'), 'simulation': K.Ref('Simulation')},
         raises={'SimulationFailure': True},
         modifies=['ModelSignature._field_sigs', 'FieldSignature.field_name', 'FieldSignature.field_type',
@@ -188,7 +190,7 @@ def build():
            returns=K.Bool, pure=True,
            note='ChangeField._get_field_type_change: instantiates Django fields and compares db types')
     w.contract(
-        'ChangeField.simulate', module=CHGF, serves=['C12'],
+        'ChangeField.simulate', module=CHGF, serves=['C12', 'C14', 'C03'],
         params={'self': K.Ref('ChangeField'), 'simulation': K.Ref('Simulation')},
         raises={'SimulationFailure': True},
         modifies=['FieldSignature.field_type', 'FieldSignature.field_attrs', 'FieldSignature.related_model'],
@@ -204,7 +206,7 @@ def build():
     w.kinds['Int'] = K.Int
     w.spec_funcs['has'] = seq_has
     w.contract(
-        'DeleteField.simulate', module=DELF, serves=['C12', 'C05'],
+        'DeleteField.simulate', module=DELF, serves=['C12', 'C05', 'C14', 'C03'],
         params={'self': K.Ref('DeleteField'), 'simulation': K.Ref('Simulation')},
         raises={'SimulationFailure': True, 'MissingSignatureError': True},
         modifies=['ModelSignature._field_sigs', 'ModelSignature.unique_together[simulation.get_model_sig(self.model_name)]'],
